@@ -60,7 +60,7 @@ func c16Child(c *mon.Child) {
 	nInputs := c.N(60, 200)
 	for mi := 0; mi < nMaps; mi++ {
 		r := c.RNG("map", mi)
-		g := lexgen.GenMap(r, &lexgen.MapOpts{Backrefs: true, MaxStates: 6, Elide: true, Hostile: r.Chance(1, 5)})
+		g := lexgen.GenMap(r, &lexgen.MapOpts{Backrefs: true, MaxStates: 6, Elide: true, Hostile: r.Chance(1, 5), OddNames: true})
 		def, err, panicked, _ := buildDef(g)
 		if panicked || err != nil {
 			c.Feature("constructor_rejected")
